@@ -740,6 +740,27 @@ func (g *overlayGen) paramsFromNode(fi *funcInfo, node ast.Node, withResults boo
 			decl = append(decl, name+" "+types.TypeString(tv.Type, g.qual))
 			continue
 		}
+		if strings.HasPrefix(name, "resultofi_") && fi.decl != nil {
+			parts := strings.SplitN(strings.TrimPrefix(name, "resultofi_"), "_", 3)
+			if len(parts) != 3 {
+				return nil, "", fmt.Errorf("bad result_of")
+			}
+			k, _ := strconv.Atoi(parts[0])
+			ri, _ := strconv.Atoi(parts[1])
+			calls := collectCalls(fi.decl, parts[2])
+			if k < 1 || k > len(calls) {
+				return nil, "", fmt.Errorf("result_of: %d calls of %s, clause names call %d", len(calls), parts[2], k)
+			}
+			tv, ok := g.p.TypesInfo.Types[calls[k-1]]
+			tup, isTuple := tv.Type.(*types.Tuple)
+			if !ok || !isTuple || ri >= tup.Len() {
+				return nil, "", fmt.Errorf("result_of: call %d of %s has no result %d", k, parts[2], ri)
+			}
+			lp := g.fset.Position(calls[k-1].Lparen)
+			params = append(params, ClauseParam{Kind: pkCallRes, Name: name, File: lp.Filename, Off: lp.Offset, Index: ri + 1})
+			decl = append(decl, name+" "+types.TypeString(tup.At(ri).Type(), g.qual))
+			continue
+		}
 		if strings.HasPrefix(name, "resultof_") && fi.decl != nil {
 			parts := strings.SplitN(strings.TrimPrefix(name, "resultof_"), "_", 2)
 			k, _ := strconv.Atoi(parts[0])
